@@ -255,7 +255,7 @@ def _events(args):
         got = q_to_float(S_._components_to_quat(*S_._quat_to_components(spm)))
         add({"op": "split", "fn": "solver.components.sparse.after-update", "A": ilist(want),
              "C": ilist(got) if got.shape == want.shape and np.array_equal(np.rint(got), got) else []})
-        dq = q_from_float(c)
+        dq = np.array(q_from_float(c))                   # writable: updated in place below
         S_._quat_to_components(dq)
         dq *= 2.0                                        # dense array updated in place
         got = q_to_float(S_._components_to_quat(*S_._quat_to_components(dq)))
